@@ -148,6 +148,19 @@ pub fn zlib_stored(data: &[u8], block: usize) -> Vec<u8> {
     out
 }
 
+/// stored blocks under a header with CINFO = wbits (window 256 B .. 32 KiB); FLG makes the header a multiple of 31
+pub fn zlib_stored_win(data: &[u8], block: usize, wbits: u8) -> Vec<u8> {
+    let mut out = zlib_stored(data, block);
+    let cmf: u8 = ((wbits & 7) << 4) | 8;
+    let mut flg: u8 = 0;
+    while ((cmf as u32) * 256 + flg as u32) % 31 != 0 {
+        flg += 1;
+    }
+    out[0] = cmf;
+    out[1] = flg;
+    out
+}
+
 pub fn zlib_level(data: &[u8], level: u32) -> Vec<u8> {
     let mut e = flate2::write::ZlibEncoder::new(Vec::new(), flate2::Compression::new(level.min(9)));
     e.write_all(data).unwrap();
@@ -159,6 +172,7 @@ pub fn compress(data: &[u8], storage: &Storage) -> Vec<u8> {
         Storage::Raw => data.to_vec(),
         Storage::Zlib(l) => zlib_level(data, *l),
         Storage::Stored(b) => zlib_stored(data, *b),
+        Storage::StoredWin(b, w) => zlib_stored_win(data, *b, *w),
     }
 }
 
